@@ -31,9 +31,7 @@ package getopt
 
 //@ func parse
 //@   props C38 C17
-//@   requires forall k int :: 0 <= k && k < len(spec) ==> spec[k] != nil
 
 //@ func Complete
 //@   props C38 C17
 //@   requires len(args) >= 1
-//@   requires forall k int :: 0 <= k && k < len(specs) ==> specs[k] != nil
